@@ -122,6 +122,9 @@ func impliedObjectType(dec *json.Decoder, depth int) (cty.Type, error) {
 		if !ok {
 			return cty.NilType, fmt.Errorf("expected string but found %T", tok)
 		}
+		// Attribute names are normalized by cty.Object, so two spellings of
+		// one name are the same property.
+		key = cty.NormalizeString(key)
 
 		// Now read the value
 		tok, err = dec.Token()
